@@ -1023,6 +1023,213 @@ def explore_http(chk, wd, logdir, ref, counters):
     n += explore_raw_xml(chk, logdir, ref)
     return n
 
+
+# ------------------------------------------------------ reloadConfig on a real daemon
+
+def explore_reload(chk, wd, ref, counters):
+    """supervisor.reloadConfig (and the update steps a client makes after it)
+    over a real config file, real ServerOptions / Supervisor / group configs:
+    every (old kind, new kind) of the section named 'web', unparsable files."""
+    from c12_reload import Daemon, KINDS, UNPARSABLE, HEAD, render
+    from c12_world import subscribe_events
+    from supervisor.xmlrpc import Faults
+    table = set(v for k, v in vars(Faults).items() if not k.startswith('_'))
+    n = 0
+    kinds = sorted(KINDS)
+
+    def names_of(res):
+        return res[1][0] if res[0] == 'value' else None
+
+    def shape_reload(res):
+        v = norm(res[1]) if res[0] == 'value' else None
+        return (isinstance(v, list) and len(v) == 1 and isinstance(v[0], list) and len(v[0]) == 3 and
+                all(isinstance(x, list) and all(isinstance(y, str) for y in x) for x in v[0]))
+
+    follow = [('supervisor.getAllConfigInfo', ()), ('supervisor.removeProcessGroup', ('web',)),
+              ('supervisor.addProcessGroup', ('web',)), ('supervisor.addProcessGroup', ('grp',)),
+              ('supervisor.getAllProcessInfo', ()), ('supervisor.reloadConfig', ()), ('supervisor.getProcessInfo', ('web',))]
+    try:
+        for old in kinds:
+            for new in kinds:
+                d1 = Daemon(wd, render(old, wd))
+                d1.write(render(new, wd))
+                seq = []
+                r = d1.call('supervisor.reloadConfig')
+                seq.append(r)
+                n += 1
+                chk.dist('reload:pair')
+                rec = {'method_name': 'supervisor.reloadConfig', 'params': '()', 'active_section_before': KINDS[old][0],
+                       'section_in_file_now': KINDS[new][0], 'old_kind': old, 'new_kind': new, 'xml': repr(r)}
+                if bad_answer(r):
+                    chk.violation(dict(rec, kind=BAD_KIND))
+                elif r[0] == 'fault':
+                    chk.violation(dict(rec, kind='reloadConfig of a valid configuration file answered a fault'))
+                elif not shape_reload(r):
+                    chk.violation(dict(rec, kind='value is not of the documented shape', documented='[[added, changed, removed]]'))
+                else:
+                    added, changed, removed = norm(r[1])[0]
+                    A, B = set(KINDS[old][1]) | {'other'}, set(KINDS[new][1]) | {'other'}
+                    exp_changed = None
+                    if 'web' in A and 'web' in B:
+                        if old == new:
+                            exp_changed = []
+                        elif KINDS[old][2] != KINDS[new][2] or old.split('-')[0] == new.split('-')[0]:
+                            exp_changed = ['web']      # another kind of group, or the same kind edited
+                    if sorted(added) != sorted(B - A) or sorted(removed) != sorted(A - B) or \
+                            (exp_changed is not None and changed != exp_changed) or not set(changed) <= (A & B):
+                        chk.violation(dict(rec, kind='reloadConfig does not report the difference between the active groups and the file',
+                                           expected={'added': sorted(B - A), 'removed': sorted(A - B), 'changed': exp_changed}))
+                # what a client does next (supervisorctl update), each answer a value or a documented fault
+                for m, ps in follow:
+                    r = d1.call(m, ps)
+                    seq.append(r)
+                    n += 1
+                    if bad_answer(r) or (r[0] == 'fault' and r[1] not in table):
+                        chk.violation({'kind': BAD_KIND, 'method_name': m, 'params': repr(ps), 'old_kind': old, 'new_kind': new,
+                                       'after': 'supervisor.reloadConfig + ' + ', '.join(x for x, _ in follow[:len(seq) - 2]),
+                                       'xml': repr(r)})
+                d1.close()
+                # the same conversation as one multicall on an identical daemon
+                d2 = Daemon(wd, render(old, wd))
+                d2.write(render(new, wd))
+                structs = [{'methodName': 'supervisor.reloadConfig', 'params': []}] + \
+                          [{'methodName': m, 'params': list(ps)} for m, ps in follow]
+                r = d2.call('system.multicall', (structs,))
+                d2.close()
+                n += 1
+                chk.dist('reload:multicall')
+                got = None
+                if r[0] == 'value' and isinstance(r[1], list) and len(r[1]) == len(seq):
+                    got = [('fault', e['faultCode']) if isinstance(e, dict) and set(e) == {'faultCode', 'faultString'}
+                           else ('value', e) for e in r[1]]
+                want = [('fault', 30) if bad_answer(x) else x for x in seq]
+
+                def scrub(v):        # per-daemon values: the clock and the generated child log names
+                    if isinstance(v, dict):
+                        return dict((k, scrub(x)) for k, x in v.items()
+                                    if k not in ('now', 'description', 'logfile', 'stdout_logfile', 'stderr_logfile'))
+                    if isinstance(v, (list, tuple)):
+                        return [scrub(x) for x in v]
+                    return v
+                if got is None or [(g[0], scrub(g[1])) for g in got] != [(w[0], scrub(w[1])) for w in want]:
+                    chk.violation({'kind': BAD_KIND if bad_answer(r) else 'system.multicall differs from the same calls issued one after another',
+                                   'method_name': 'system.multicall', 'params': repr(structs), 'old_kind': old, 'new_kind': new,
+                                   'multicall': repr(r)[:1500], 'sequential': [repr(x)[:200] for x in seq]})
+        # files the daemon cannot parse: CANT_REREAD, nothing else
+        for old in ('program', 'fcgi', 'absent'):
+            for label in sorted(UNPARSABLE) + ['file-removed', 'empty-file', 'no-supervisord-section']:
+                d1 = Daemon(wd, render(old, wd))
+                if label == 'file-removed':
+                    d1.remove_file()
+                elif label == 'empty-file':
+                    d1.write('')
+                elif label == 'no-supervisord-section':
+                    d1.write('[program:web]\ncommand=/bin/cat\n')
+                else:
+                    d1.write((HEAD % {'dir': wd}) + UNPARSABLE[label])
+                before = d1.active()
+                r = d1.call('supervisor.reloadConfig')
+                r2 = d1.call('system.multicall', ([{'methodName': 'supervisor.reloadConfig', 'params': []},
+                                                    {'methodName': 'supervisor.getAllConfigInfo', 'params': []}],))
+                r3 = d1.call('supervisor.getAllProcessInfo')
+                after = d1.active()
+                d1.close()
+                n += 3
+                chk.dist('reload:unparsable')
+                el = None
+                if r2[0] == 'value' and isinstance(r2[1], list) and len(r2[1]) == 2 and isinstance(r2[1][0], dict):
+                    el = r2[1][0].get('faultCode')
+                if r != ('fault', Faults.CANT_REREAD) or el != Faults.CANT_REREAD or r3[0] != 'value' or before != after:
+                    chk.violation({'kind': BAD_KIND if (bad_answer(r) or bad_answer(r2) or bad_answer(r3))
+                                   else 'a configuration file that cannot be read was not answered CANT_REREAD',
+                                   'method_name': 'supervisor.reloadConfig', 'params': '()', 'file': label,
+                                   'file_text': UNPARSABLE.get(label, label), 'active_before': old, 'xml': repr(r),
+                                   'in_multicall': repr(r2)[:400], 'getAllProcessInfo_after': repr(r3)[:200],
+                                   'active_groups_changed': before != after})
+    finally:
+        subscribe_events(ref)
+    return n
+
+
+def explore_loads(chk, ref):
+    """supervisor_xmlrpc_handler.loads (the handler's own unmarshaller) against
+    xmlrpclib.loads on every scalar type and nestings of them."""
+    import datetime
+    from supervisor.compat import xmlrpclib, as_string
+    from supervisor.xmlrpc import supervisor_xmlrpc_handler
+    h = supervisor_xmlrpc_handler(None, [])
+    rng = chk.rng
+
+    def canon(v):
+        if isinstance(v, xmlrpclib.Binary):
+            return ('str', as_string(v.data))
+        if isinstance(v, xmlrpclib.DateTime):
+            return ('dt', tuple(v.timetuple())[:6])
+        if isinstance(v, datetime.datetime):
+            return ('dt', tuple(v.timetuple())[:6])
+        if isinstance(v, bool):
+            return ('bool', v)
+        if isinstance(v, int):
+            return ('int', v)
+        if isinstance(v, float):
+            return ('float', repr(v))
+        if isinstance(v, str):
+            return ('str', v)
+        if v is None:
+            return ('nil',)
+        if isinstance(v, (list, tuple)):
+            return ('array', [canon(x) for x in v])
+        if isinstance(v, dict):
+            return ('struct', sorted((k, canon(x)) for k, x in v.items()))
+        return ('other', repr(v))
+    scalars = [True, False, 0, 1, -1, 7, 2 ** 31 - 1, -2 ** 31, 1.5, -0.25, 1e10, 0.0, -1e-7, '', 'a', ' ', '  x ', 'a<b&c>"\'',
+               u'h\u00e9llo \u65e5\u672c \U0001F600', '\n', 'l1\nl2', '\t', '0', '1', 'true', ']]>', '&amp;', None,
+               xmlrpclib.Binary(b''), xmlrpclib.Binary(b'plain text'), xmlrpclib.Binary(u'caf\u00e9'.encode('utf-8')),
+               xmlrpclib.DateTime('20260102T03:04:05'), xmlrpclib.DateTime('19991231T23:59:59')]
+
+    def rand_value(depth):
+        k = rng.random()
+        if depth <= 0 or k < 0.5:
+            return rng.choice(scalars)
+        if k < 0.75:
+            return [rand_value(depth - 1) for _ in range(rng.randrange(0, 4))]
+        return dict((rng.choice(['a', 'b', '', u'k\u00e9y', 'methodName', 'params']), rand_value(depth - 1))
+                    for _ in range(rng.randrange(0, 4)))
+    docs = [((v,), 'ns.m') for v in scalars]
+    docs += [((v, w), 'supervisor.x') for v in scalars[:12] for w in (True, False, 0, '')]
+    docs += [(tuple(rand_value(3) for _ in range(rng.randrange(0, 4))), rng.choice(['a.b', 'system.multicall', u'n\u00e9.m']))
+             for _ in range(300 if chk.tier == 'quick' else 5000)]
+    raws = []
+    for params, name in docs:
+        raws.append(xmlrpclib.dumps(params, name, allow_none=True))
+    # spellings xmlrpclib.dumps never emits
+    def call(v):
+        return "<?xml version='1.0'?><methodCall><methodName>a.b</methodName><params><param><value>%s</value></param></params></methodCall>" % v
+    raws += [call(x) for x in ('<boolean>0</boolean>', '<boolean>1</boolean>', '<i4>0</i4>', '<i4>-12</i4>', '<int>+5</int>', '<int>007</int>',
+                               '<double>-1</double>', '<double>2.50</double>', '<double>1e3</double>', 'untyped', '', ' ', '<string/>',
+                               '<string> padded </string>', '<string>&lt;&amp;&gt;&#233;</string>', '<nil/>',
+                               '<array><data/></array>', '<array><data><value><boolean>0</boolean></value><value>u</value></data></array>',
+                               '<struct></struct>', '<struct><member><name>wait</name><value><boolean>0</boolean></value></member></struct>',
+                               '<base64>aGk=</base64>', '<dateTime.iso8601>20260102T03:04:05</dateTime.iso8601>')]
+    n = 0
+    for xml in raws:
+        n += 1
+        chk.dist('loads')
+        try:
+            rp, rm = xmlrpclib.loads(xml)
+        except Exception:
+            continue                    # not something a conforming client sends
+        try:
+            gp, gm = h.loads(xml)
+            got = (canon(list(gp if gp is not None else ())), gm)
+        except Exception as e:
+            got = ('exception', type(e).__name__)
+        want = (canon(list(rp)), rm)
+        if got != want:
+            chk.violation({'kind': 'the handler unmarshals a request differently from the XML-RPC reference decoder',
+                           'request_xml': xml[:1500], 'handler_loads': repr(got)[:600], 'xmlrpclib_loads': repr(want)[:600]})
+    return n
+
 # ------------------------------------------------------------------- main
 
 def _run(chk, wd, proved):
@@ -1067,6 +1274,7 @@ def _run(chk, wd, proved):
     n_multi = explore_multicall(chk, logdir, ref, multi_cases, multi_meta, counters)
     n_ext = explore_ext(chk, wd, logdir, ref, counters) + explore_arity(chk, pool, facts, counters)
     n_http = explore_http(chk, wd, logdir, ref, counters)
+    n_http += explore_reload(chk, wd, ref, counters) + explore_loads(chk, ref)
     t3 = time.time()
     chk.note('seconds: names %.1f, args %.1f, multicall+ext+http %.1f' % (t1 - t0, t2 - t1, t3 - t2))
     chk.note('extension-namespace calls %d, HTTP-channel requests %d' % (n_ext, n_http))
@@ -1178,6 +1386,8 @@ def _explore_without_model(chk, wd):
     explore_ext(chk, wd, logdir, ref, counters)
     explore_arity(chk, pool, facts, counters)
     explore_http(chk, wd, logdir, ref, counters)
+    explore_reload(chk, wd, ref, counters)
+    explore_loads(chk, ref)
     chk.coverage['evaluations'] = len(c)
     chk.coverage['rule'] = 'translator rejected the source: model-independent assertions only'
 
